@@ -242,3 +242,16 @@ Example c14_ex_empty_file :
   let r := send_file N.eq_dec xxh64 0%N 4 true None ex_n1 ex_n3 ex_p1 st in
   snd r = false /\ file (fst r) ex_n1 ex_p1 = Some [] /\ file (fst r) ex_n3 ex_p1 = Some [].
 Proof. vm_compute. repeat split; reflexivity. Qed.
+
+(* ---------------------------------------------------------------------------
+   Start-up order. The model delivers a hand-over to a node that accepts it; in the code that means the receiving
+   node is listening. Two nodes that each hold something of the other (every server renamed, a combined add and
+   remove) only finish their start-up synchronisation because every node listens BEFORE it starts to send.
+   gen/gen_startup_order.py reads the order of the calls main.go makes on the node it creates off the source on
+   every run; the harness brings its nodes up in the same order (harness/startnode.go, then Serve, then Sync). *)
+From Coq Require Import String.
+From Semadb Require StartupOrder.
+Theorem c14_node_listens_before_it_sends :
+  StartupOrder.startup_order = ["NewNode"; "RegisterMetrics"; "Serve"; "Sync"]%string.
+Proof. reflexivity. Qed.
+Print Assumptions c14_node_listens_before_it_sends.
